@@ -256,7 +256,9 @@ func C20(p *core.Program, r *core.Report) {
 				switch {
 				case ex.atom == anc+" == nil" && ex.val:
 					nEnd++
-				case strings.HasPrefix(ex.atom, "in(") && strings.HasSuffix(ex.atom, ",dom.TagName("+anc+"))") && ex.val:
+				case ex.val && (strings.HasPrefix(ex.atom, "in(") && strings.HasSuffix(ex.atom, ",dom.TagName("+anc+"))") ||
+					ex.atom == "dom.TagName("+anc+") == elem($1)" || ex.atom == "elem($1) == dom.TagName("+anc+")"):
+					// a lookup in the set built from the names, or a scan over the names
 					nMatch++
 					// the match exit answers true
 					for _, in := range ex.to.Instrs {
